@@ -23,6 +23,7 @@ def run(ctx):
     try:
         _refusals(ctx)
         _presentation(ctx)
+        _threshold(ctx)
         _environment(ctx)
     finally:
         cc.stop()
@@ -323,11 +324,12 @@ def _presentation(ctx):
                                                                                                      "returned": m[nm].tolist()})
 
 
-def write_relation_file(path, system, rng):
+def write_relation_file(path, system, rng, want_rows=False):
     """User-written relations equivalent to the Laue invariants of ``system``: reduced rows of
     the oracle's constraint matrix, re-scaled, re-ordered and partly chained."""
     A = laue.constraint_matrix(system)
     lines = []
+    eq_rows = []
     if A.rows:
         rref, piv = A.rref()
         rows = [rref[i, :] for i in range(len(piv))]
@@ -342,16 +344,91 @@ def write_relation_file(path, system, rng):
             lhs = sum(scale * c * syms[j] for j, c in nzs[:1])
             rhs = -sum(scale * c * syms[j] for j, c in nzs[1:])
             lines.append(f"{sympy.sstr(lhs)} = {sympy.sstr(rhs)}")
+            eq_rows.append([float(scale * row[j]) for j in range(21)])
         rng.shuffle(zero_syms)
         while zero_syms:
             take = int(rng.integers(1, 5))
             chunk, zero_syms = zero_syms[:take], zero_syms[take:]
             lines.append(" = ".join(chunk) + " = 0")
+            # "a = b = 0" states a - b = 0 and a - 0 = 0 (first member against each of the others)
+            first = FT.NAMES.index(chunk[0])
+            for other in chunk[1:]:
+                r_ = [0.0] * 21
+                r_[first], r_[FT.NAMES.index(other)] = 1.0, -1.0
+                eq_rows.append(r_)
+            r_ = [0.0] * 21
+            r_[first] = 1.0
+            eq_rows.append(r_)
         order = rng.permutation(len(lines))
         lines = [lines[i] for i in order]
     with open(path, "w") as fp:
         fp.write("\n".join(lines) + ("\n" if lines else ""))
+    if want_rows:
+        return lines, numpy.array(eq_rows, dtype=float).reshape(-1, 21)
     return lines
+
+
+def _threshold(ctx):
+    """Where the residual refusal sets in.  The relations are given as a user-written file (documented), so the oracle knows
+    the very equations the filler stacks under the supplied values and computes the least-squares misfit per volume itself;
+    a contradiction is planted in one or a few volume rows of a longer table, sized at 0.3x (must be accepted) or 5x (must be
+    refused) the residual tolerance - never near 1x."""
+    n_in = ctx.pick(54, 5400)
+    tmp = tempfile.mkdtemp(prefix="c09t-")
+    try:
+        k = 3 * 10 ** 6
+        for n in range(n_in):
+            k += 1
+            system = [s_ for s_ in laue.SYSTEMS if s_ != "triclinic"][n % 8]
+            case_id = f"thr-{system}-{n}"
+            if not ctx.mine(k, case_id):
+                continue
+            rng = ctx.rng("thr", system, n)
+            rel = os.path.join(tmp, f"rel-{n}.txt")
+            lines, R = write_relation_file(rel, system, rng, want_rows=True)
+            nrows = [1, 4, 16][(n // 8) % 3]
+            nbad = 1 if (n // 24) % 2 == 0 else max(1, nrows // 4)
+            ratio = [5.0, 0.3, 5.0][n % 3]
+            tol = [0.1, 0.1, 0.02, 1.0][(n // 3) % 4]
+            S = FT.superset(rng, FT.minimal_sufficient(rng, system), 0.4)
+            i = dependent_pair(system, S, rng)
+            if i is None:
+                ctx.count("generator_skips")
+                continue
+            field = FT.invariant_field(rng, system, nrows)
+            # misfit of the stacked system [supplied values; relations] for a unit error in coordinate i (quadratic in the error)
+            Astack = numpy.vstack([numpy.eye(21)[S], R])
+            b1 = numpy.zeros(len(S) + len(R))
+            b1[S.index(i)] = 1.0
+            x1, *_ = numpy.linalg.lstsq(Astack, b1, rcond=None)
+            r1 = float(((Astack @ x1 - b1) ** 2).sum())
+            if not (r1 > 1e-6):
+                ctx.count("generator_skips")
+                continue
+            delta = numpy.sqrt(ratio * tol / r1)
+            rows = rng.choice(nrows, size=nbad, replace=False)
+            f2 = field.copy()
+            f2[rows, i] += delta * rng.choice([-1.0, 1.0], size=nbad)
+            kw = {} if tol == 0.1 else {"residual_atol": tol}
+            df = FT.make_frame(f2, S, rng, shuffle=True)
+            st, res = call_fill(ctx, df, rel, case_id, "threshold", **kw)
+            cls = f"threshold|misfit={ratio:g}x-tolerance|rows={nrows}|bad-rows={nbad}"
+            ctx.evaluation(cls, (system, n), nontrivial=True, sample={"system": system, "volume_rows": nrows, "contradicting_rows": int(nbad), "squared_misfit_per_bad_row": ratio * tol,
+                                                                      "residual_atol": tol, "outcome": st})
+            data = {"system": system, "relations": lines, "supplied": [FT.NAMES[s_] for s_ in S], "residual_atol": tol, "table": df.to_dict(orient="list")}
+            if st == "harness":
+                continue
+            if st == "error":
+                ctx.violation(f"fill-error:{type(res).__name__}:{exc_site(res)}:threshold", f"{system}: {exc_text(res)}", case_id, data)
+            elif ratio > 1 and st == "ok":
+                ctx.violation(f"refusal-missing:residual:{'one' if nbad == 1 else 'few'}-bad-row(s)-of-{'many' if nrows > 1 else 'one'}",
+                              f"{system}: {nbad} of {nrows} volume rows contradict the relations with a squared misfit of {ratio:g} x residual_atol={tol} "
+                              f"but the table was accepted", case_id, data)
+            elif ratio < 1 and st == "refused":
+                ctx.violation("refused-acceptable:misfit-below-tolerance", f"{system}: squared misfit {ratio:g} x residual_atol={tol} in {nbad} of {nrows} rows "
+                              f"but refused: {res}", case_id, data)
+    finally:
+        shutil.rmtree(tmp, ignore_errors=True)
 
 
 def _environment(ctx):
